@@ -59,6 +59,19 @@
 (*   and dropped only by a training-mode call that runs the whole forward),*)
 (*   Variant.loadclear = FALSE and Variant.modeclear = FALSE are the       *)
 (*   broken variants TLC must reject.                                      *)
+(*   Variant.legacy = TRUE adds LoadLegacy: a state dict of the version    *)
+(*   before whitening (no `updated_strategy` entry) holding q(u) = N(m, S) *)
+(*   in the coordinates of u; the first non-prior call converts it once.   *)
+(*   Every later output must describe the LOADED q(u): the jitter of the   *)
+(*   conversion and the jitter of forward / kl_divergence() are the same   *)
+(*   value.  Variant.convjit = "setting" is the broken variant (rejected   *)
+(*   for an explicit jitter_val that differs from the dtype default).      *)
+(* Part "jit"     jitter_val as a constructor argument: strategy x JitArgs *)
+(*   (not given, the dtype default given explicitly, 0, small, large) and  *)
+(*   the value every site that reads the jitter of Kzz must use.           *)
+(* Part "qf" also evaluates the conversion of a legacy checkpoint exactly  *)
+(*   (j = 0): whitening the stored (m, S) and VariationalStrategy.forward  *)
+(*   on the result give the direct reading of (m, S) (LegacyOK).           *)
 (***************************************************************************)
 EXTENDS LinAlg, TLC
 
@@ -179,6 +192,13 @@ Eval(i) ==
       cwcov  == MA(Kxx, MM(MM(MT(interp), MS(cd.cov, Ik)), interp))
       \* the unwhitened code on the same q(u): parameters (um, root L root)
       ucode2 == UCode(mx, Kxx, Kxz, Ki, mz, um, MM(L, cd.root))
+      \* legacy checkpoint (VariationalStrategy.__call__ with updated_strategy = False): the stored parameters are q(u) itself; they are whitened once
+      \* with L = chol(Kzz): mean L^-1 (m - mz), root L^-1 root; forward then runs on the whitened parameters
+      lgm    == MV(MI(L), VS(cd.mean, mz))
+      lgroot == MM(MI(L), cd.root)
+      lgcov  == MM(lgroot, MT(lgroot))
+      clmean == VA(MV(MT(interp), lgm), mx)
+      clcov  == MA(Kxx, MM(MM(MT(interp), MS(lgcov, Ik)), interp))
       \* orthogonally decoupled: the last p data rows are the mean inducing points, a their Delta parameters
       av == IV(i.a)
       Orth(mean, cov) ==
@@ -198,6 +218,7 @@ Eval(i) ==
       w  |-> IF white THEN [mean |-> wmean, cov |-> wcov, kl |-> wkl, wtr |-> Trace(qS), wquad |-> Dot(qm, qm), wdetS |-> Det(qS)] ELSE [none |-> TRUE],
       cw |-> IF white THEN [mean |-> cwmean, cov |-> cwcov] ELSE [none |-> TRUE],
       cu2 |-> IF white THEN ucode2 ELSE [none |-> TRUE],
+      cl |-> IF white THEN [mean |-> clmean, cov |-> clcov, tr |-> Trace(lgcov), quad |-> Dot(lgm, lgm), detS |-> Det(lgcov)] ELSE [none |-> TRUE],
       um |-> IF white THEN um ELSE <<>>, uS |-> IF white THEN uS ELSE <<>>,
       od |-> IF p > 0 THEN Orth(dmean, dcov) ELSE [none |-> TRUE],
       ow |-> IF p > 0 /\ white THEN Orth(wmean, wcov) ELSE [none |-> TRUE]]
@@ -218,6 +239,12 @@ KLCodeOK    == Part = "qf" => out.cukl = RAdd(out.d.kl.tr, out.d.kl.quad)
 WhiteKLOK   == Part = "qf" /\ out.white =>
                  /\ out.w.kl.tr = out.w.wtr /\ out.w.kl.quad = out.w.wquad
                  /\ out.w.kl.detS = RMul(out.w.kl.detK, out.w.wdetS)
+\* a legacy checkpoint (q(u) stored unwhitened) converted by the whitened strategy describes the stored q(u): q(f) and the KL pieces of the
+\* converted parameters against N(0, I) are those of the direct reading
+LegacyOK    == Part = "qf" /\ out.white =>
+                 /\ out.cl.mean = out.d.mean /\ out.cl.cov = out.d.cov
+                 /\ out.cl.tr = out.d.kl.tr /\ out.cl.quad = out.d.kl.quad
+                 /\ out.d.kl.detS = RMul(out.d.kl.detK, out.cl.detS)
 \* q(u) = p(u) gives the prior and KL = 0 (trace = k, quadratic form 0, equal determinants)
 PriorOK     == Part = "qf" => /\ out.pr.mean = out.mx /\ out.pr.cov = out.Kxx
                               /\ out.pr.kl.tr = R(Len(out.qm)) /\ out.pr.kl.quad = RZero
@@ -404,6 +431,25 @@ CellOut(q) == IF q.strat \in Wrappers THEN [info |-> StratInfo(q.strat), layout 
               ELSE IF q.strat = "BatchDecoupledVariationalStrategy" THEN [info |-> StratInfo(q.strat), layout |-> MVInfo(q)]
               ELSE [info |-> StratInfo(q.strat), layout |-> [none |-> TRUE]]
 
+\* ============================== part "jit": jitter_val as a constructor argument ===============
+\* none: not given (the strategy falls back to settings.variational_cholesky_jitter.value(dtype)); dflt: that very value given explicitly;
+\* zero: 0.0 (falsy); small / large: explicit values different from the default.
+JitArgs == {"none", "dflt", "zero", "small", "large"}
+\* the value a site reads: "self" = the strategy's jitter_val, "setting" = the dtype default of the setting whatever the argument
+JitOf(src, jarg) == IF src = "self" /\ jarg # "none" THEN jarg ELSE "dflt"
+\* sites of a whitened strategy that read the jitter of Kzz: their composition is the identity only if all read the same value
+\* (forward un-whitens with chol(Kzz + j I), kl_divergence() is taken in the whitened coordinates, the legacy conversion whitens)
+JitSites == {"forward", "kl", "convert"}
+SiteSrc(site) == IF site = "convert" THEN Variant.convjit ELSE "self"
+\* strategies that contain a VariationalStrategy and hence its conversion of legacy checkpoints (the batch-decoupled strategy never had an
+\* unwhitened version; for the wrappers it is the base strategy's)
+HasLegacy(strat, base) == strat = "VariationalStrategy" \/ base = "VariationalStrategy"
+LegacyDists == {"Cholesky", "Natural", "TrilNatural"}        \* a whitened full covariance is representable (not: diagonal, point mass)
+JitCells == [strat : Strategies, jarg : JitArgs]
+JitInfo(q) == [eff |-> JitOf("self", q.jarg), explicit |-> q.jarg # "none",
+               sites |-> [site \in JitSites |-> JitOf(SiteSrc(site), q.jarg)]]
+JitSame == Part = "jit" => \A site \in JitSites : out.sites[site] = out.eff
+
 \* ============================== part "hist" ===================================================
 \* c = [ver : version of the parameters, memo : version the memoised q(u) / p(u) were computed from (0: nothing memoised),
 \*      fresh : a forward call happened since the last optimizer step];  out = history of observations
@@ -458,49 +504,67 @@ PathCells == {q \in [strat : Strategies, dist : Dists, base : Bases \cup {"none"
 \* out = history of observations; the first entry is the first prediction under the path (made by Init) on input set 1.
 \* own = TRUE: the call is made under the path of the cell, FALSE: under the default settings;  xs: which of two input sets is passed.
 \* An observation says which parameter version (sees) and which input set (xsees) the returned q(f) was computed from.
-EObs(a, flag, xs, sees, want, xsees) == [a |-> a, flag |-> flag, xs |-> xs, sees |-> sees, want |-> want, xsees |-> xsees]
-EInit == [ver |-> 1, mode |-> "eval", memo |-> 1, aux |-> 1, auxx |-> 1]
-EOut0 == <<EObs("Predict", TRUE, 1, 1, 1, 1)>>
-ECan  == Part = "ehist" /\ Len(out) < MaxHist
+\*      coord: "own" the parameters are in the strategy's coordinates / "u": a legacy checkpoint was loaded and no call was made since,
+\*      skew : the parameters were converted with another jitter than the one forward reads (they describe a q(u) nobody loaded)]
+\* qu: the q(u) an output describes: "cur" (the one the current parameters / the loaded checkpoint state) or "skew".
+EObs(a, flag, xs, sees, want, xsees, qu) == [a |-> a, flag |-> flag, xs |-> xs, sees |-> sees, want |-> want, xsees |-> xsees, qu |-> qu]
+\*      leg  : number of legacy loads so far (at most 2)
+EInit == [ver |-> 1, mode |-> "eval", memo |-> 1, aux |-> 1, auxx |-> 1, coord |-> "own", skew |-> FALSE, leg |-> 0]
+EOut0 == <<EObs("Predict", TRUE, 1, 1, 1, 1, "cur")>>
+\* the one-off conversion at the first non-prior call after a legacy load (either mode, whole forward or early return, any path)
+Converts == c.coord = "u"
+SkewAfter == IF Converts THEN JitOf(Variant.convjit, Variant.jarg) # JitOf("self", Variant.jarg) ELSE c.skew
+QuOf(sk) == IF sk THEN "skew" ELSE "cur"
+\* with legacy loads switched on only the histories that contain one are wanted: one without is not continued beyond the point where a legacy
+\* load followed by an observation still fits (the histories without are those of the run with Variant.legacy = FALSE)
+ECan  == Part = "ehist" /\ Len(out) < MaxHist /\ (Variant.legacy => c.leg > 0 \/ Len(out) < MaxHist - 2)
 Predict(own, xs) ==
   /\ ECan /\ c.mode = "eval"
-  /\ LET m2    == IF c.memo = 0 THEN c.ver ELSE c.memo                      \* memoised in evaluation mode: valid because every change drops it
+  /\ LET m2    == IF c.memo = 0 \/ Converts THEN c.ver ELSE c.memo          \* memoised in evaluation mode: valid because every change drops it
          sees  == IF own /\ Variant.reuse /\ c.aux # 0 THEN c.aux ELSE m2     \* intended: a path recomputes what it retains at every call
          xsees == IF own /\ Variant.reusex /\ c.auxx # 0 THEN c.auxx ELSE xs
-     IN /\ c' = [c EXCEPT !.memo = m2, !.aux = IF own THEN sees ELSE c.aux, !.auxx = IF own THEN xsees ELSE c.auxx]
-        /\ out' = Append(out, EObs("Predict", own, xs, sees, c.ver, xsees))
+     IN /\ c' = [c EXCEPT !.memo = m2, !.aux = IF own THEN sees ELSE c.aux, !.auxx = IF own THEN xsees ELSE c.auxx,
+                          !.coord = "own", !.skew = SkewAfter]
+        /\ out' = Append(out, EObs("Predict", own, xs, sees, c.ver, xsees, QuOf(SkewAfter)))
 ToTrain ==
   /\ ECan /\ c.mode = "eval"
   /\ c' = [c EXCEPT !.mode = "train", !.memo = IF Variant.modeclear THEN 0 ELSE c.memo]
-  /\ out' = Append(out, EObs("ToTrain", FALSE, 0, 0, 0, 0))
+  /\ out' = Append(out, EObs("ToTrain", FALSE, 0, 0, 0, 0, "cur"))
 ToEval ==
   /\ ECan /\ c.mode = "train"
   /\ c' = [c EXCEPT !.mode = "eval", !.memo = IF Variant.modeclear THEN 0 ELSE c.memo]
-  /\ out' = Append(out, EObs("ToEval", FALSE, 0, 0, 0, 0))
+  /\ out' = Append(out, EObs("ToEval", FALSE, 0, 0, 0, 0, "cur"))
 \* a training-mode call on input set 1; short = TRUE: the inputs are the inducing points (a strategy may return q(u) itself before the rest
 \* of forward)
 TrainCall(short) ==
   /\ ECan /\ c.mode = "train"
-  /\ LET m2 == IF ClearOnTrainCall \/ c.memo = 0 THEN c.ver ELSE c.memo
+  /\ LET m2 == IF ClearOnTrainCall \/ c.memo = 0 \/ Converts THEN c.ver ELSE c.memo
          drop == (Variant.reuse \/ Variant.reusex) /\ ~short               \* the broken variants drop what a path retained here only
-     IN /\ c' = [c EXCEPT !.memo = m2, !.aux = IF drop THEN 0 ELSE c.aux, !.auxx = IF drop THEN 0 ELSE c.auxx]
-        /\ out' = Append(out, EObs("TrainCall", short, 1, m2, c.ver, 1))
+     IN /\ c' = [c EXCEPT !.memo = m2, !.aux = IF drop THEN 0 ELSE c.aux, !.auxx = IF drop THEN 0 ELSE c.auxx, !.coord = "own", !.skew = SkewAfter]
+        /\ out' = Append(out, EObs("TrainCall", short, 1, m2, c.ver, 1, QuOf(SkewAfter)))
 \* optimizer.step(): in training mode (a change made in evaluation mode behind the back of the caches is outside the protocol)
 EOptStep ==
   /\ ECan /\ c.mode = "train"
   /\ c' = [c EXCEPT !.ver = c.ver + 1]
-  /\ out' = Append(out, EObs("OptStep", FALSE, 0, 0, 0, 0))
+  /\ out' = Append(out, EObs("OptStep", FALSE, 0, 0, 0, 0, "cur"))
 \* load_state_dict(): in either mode
 LoadState ==
   /\ ECan
-  /\ c' = [c EXCEPT !.ver = c.ver + 1, !.memo = IF Variant.loadclear THEN 0 ELSE c.memo]
-  /\ out' = Append(out, EObs("LoadState", FALSE, 0, 0, 0, 0))
+  /\ c' = [c EXCEPT !.ver = c.ver + 1, !.memo = IF Variant.loadclear THEN 0 ELSE c.memo, !.coord = "own", !.skew = FALSE]
+  /\ out' = Append(out, EObs("LoadState", FALSE, 0, 0, 0, 0, "cur"))
+\* load_state_dict() of a checkpoint written before whitening: q(u) = N(m, S) in the coordinates of u, no `updated_strategy` entry; in either mode.
+\* (For a strategy whose own coordinates are those of u this is LoadState.)  An optimizer step before the first call moves the parameters in the
+\* coordinates of u: the conversion then applies to what the parameters encode at the call.
+LoadLegacy ==
+  /\ Part = "ehist" /\ Len(out) < MaxHist - 1 /\ Variant.legacy /\ c.leg < 2
+  /\ c' = [c EXCEPT !.ver = c.ver + 1, !.memo = IF Variant.loadclear THEN 0 ELSE c.memo, !.coord = "u", !.skew = FALSE, !.leg = c.leg + 1]
+  /\ out' = Append(out, EObs("LoadLegacy", FALSE, 0, 0, 0, 0, "cur"))
 ENext == \/ \E own \in BOOLEAN, xs \in {1, 2} : Predict(own, xs)
          \/ \E short \in BOOLEAN : TrainCall(short)
-         \/ ToTrain \/ ToEval \/ EOptStep \/ LoadState
+         \/ ToTrain \/ ToEval \/ EOptStep \/ LoadState \/ LoadLegacy
 \* every prediction and every training-mode output reflects the current parameters and the inputs of the call, whatever the path and
-\* whatever was predicted before
-EObservesCurrent == Part = "ehist" => \A e \in 1..Len(out) : out[e].sees = out[e].want /\ out[e].xsees = out[e].xs
+\* whatever was predicted before; after a legacy load it describes the q(u) that was loaded
+EObservesCurrent == Part = "ehist" => \A e \in 1..Len(out) : out[e].sees = out[e].want /\ out[e].xsees = out[e].xs /\ out[e].qu = "cur"
 
 \* ============================== the machine ===================================================
 Init ==
@@ -510,6 +574,7 @@ Init ==
     [] Part = "hist"    -> c = HInit /\ out = <<>>
     [] Part = "paths"   -> c \in PathCells /\ out = PathInfo(c.path)
     [] Part = "ehist"   -> c = EInit /\ out = EOut0
+    [] Part = "jit"     -> c \in JitCells /\ out = JitInfo(c)
 
 Next == IF Part = "hist" THEN Forward \/ KL \/ OptStep ELSE IF Part = "ehist" THEN ENext ELSE UNCHANGED vars
 Spec == Init /\ [][Next]_vars
